@@ -602,12 +602,24 @@ var hostileCatchVals = []string{"{x", "*y", "{x}/b", "a/{b}/c", "*{c}", "a/*", "
 var escapedParamVals = []string{"a%2Fb", "%2F", "%41", "x%2fy", "%7bz%7d", "a%2fb%20c", "%25%41", "%2E%2E"}
 var escapedCatchVals = []string{"a%2Fb", "a%2Fb/c", "%41/b", "x/%2f/y", "a%2F/b%20c", "%2F"}
 
-// pickVals chooses one value per wildcard; hostile = 0 ordinary, 1 hostile values,
+// the rest of the value domain of an ENDING catch-all (the pattern's last token): HEAD serves any
+// non-empty byte string there - leading '/', empty segments inside, trailing '/' (README:
+// /src/file=*{path} matches /src/file=/dir/config.txt). An INFIX catch-all only takes one or more
+// non-empty segments on HEAD (no leading/trailing '/', no "//"), which catchVals already are.
+var endingCatchVals = []string{"/e", "/etc/passwd", "/", "//", "a//b", "a/", "/a/", "a//", "//a", "a/b/", "/a//b/"}
+
+// pickVals chooses one value per wildcard; hostile = 0 ordinary, 1 hostile values, 4 ordinary but the
+// ending catch-all (if any) takes a value from endingCatchVals, 3 escaped text in the path,
 // 2 the wildcard's own text ("{name}" / "*{name}") as its value
 func pickVals(rnd *hx.Rand, p string, hostile int) []string {
 	var vs []string
 	inPath := false
-	for _, t := range tokenize(p) {
+	toks := tokenize(p)
+	for ti, t := range toks {
+		if t.kind == 'c' && ti == len(toks)-1 && (hostile == 4 || (hostile == 0 && rnd.Pct(30))) {
+			vs = append(vs, hx.Pick(rnd, endingCatchVals))
+			continue
+		}
 		switch t.kind {
 		case 's':
 			if t.text == "/" {
@@ -1135,7 +1147,8 @@ func main() {
 			}
 		}
 		seenVals := map[string]bool{}
-		for c := 0; c < nroute+3; c++ {
+		endsCatch := strings.HasSuffix(p, "}") && func() bool { ts := tokenize(p); return len(ts) > 0 && ts[len(ts)-1].kind == 'c' }()
+		for c := 0; c < nroute+4; c++ {
 			// the last three rounds use values made of pattern syntax ('{', '*'), the wildcard's own
 			// text, and escaped request-target text (%2F, %41, ...: URL.RawPath is set)
 			hostile := 0
@@ -1145,6 +1158,9 @@ func main() {
 			if hostile == 3 && !hasPathWild(p) {
 				continue
 			}
+			if hostile == 4 && !endsCatch {
+				continue
+			}
 			vals := pickVals(rnd, p, hostile)
 			if hostile > 0 {
 				if len(vals) == 0 {
@@ -1152,6 +1168,8 @@ func main() {
 				}
 				if hostile == 3 {
 					st.Count("kind:route-alone-escaped-values")
+				} else if hostile == 4 {
+					st.Count("kind:route-alone-ending-catchall-domain")
 				} else {
 					st.Count("kind:route-alone-syntax-values")
 				}
